@@ -474,7 +474,7 @@ func StructFieldsAsOptionsAction(explicitFields ...string) RewriteAction {
 //   - the given argument is not a disjunction or a reference to one
 func DisjunctionAsOptionsAction(argumentIndex int) RewriteAction {
 	return func(schemas ast.Schemas, builder ast.Builder, option ast.Option) []ast.Option {
-		if len(option.Args) == 0 {
+		if argumentIndex < 0 || argumentIndex >= len(option.Args) {
 			return []ast.Option{option}
 		}
 
